@@ -34,6 +34,7 @@ INF = float("inf")
 PS = [1, 2, INF]
 
 OBLIGATIONS = {
+    "rematch_of_a_matching": "a returned matching (track 1 with its match features) was matched again as first track",
     "tie_u_eq_l_lt_ul": "a DP cell with up == left < diagonal was reached (the tie named in DESIGN)",
     "tie_other": "a DP cell where the diagonal ties with one neighbour below the other",
     "unequal_sizes": "a pair of tracks of different sizes",
@@ -237,8 +238,9 @@ def read_coupling(m, n1, n2):
     return links
 
 
-def check_one(site, mode, t1, t2, X1, X2, p, dim, case, ctx, tie):
-    """match(t1, t2) in one mode: score optimal, coupling valid, coupling realises the score.  -> score or None"""
+def check_one(site, mode, t1, t2, X1, X2, p, dim, case, ctx, tie, keep=None):
+    """match(t1, t2) in one mode: score optimal, coupling valid, coupling realises the score.  -> score or None
+    (keep: a list that receives the returned matching when everything held)"""
     n1, n2 = len(X1), len(X2)
     # FRECHET takes no p: it is called with the default p = 1 and must still accumulate with max
     st, m = guard(CMP.match, t1, t2, mode, 1 if mode == CMP.MODE_MATCHING_FRECHET else p, dim, False, False)
@@ -278,6 +280,8 @@ def check_one(site, mode, t1, t2, X1, X2, p, dim, case, ctx, tie):
                       {"score": score, "coupling_cost": real, "optimum": best, "links_i2_j1": [list(l) for l in path]})
         return score
     ctx.outcome((site, n1, n2, len(path), str(pp)))
+    if keep is not None:
+        keep.append(m)
     return score
 
 
@@ -312,9 +316,18 @@ def check_pair(variant, A, B, p, dim, ctx):
         for mname in modes:
             t1, t2 = make_track(variant, P1), make_track(variant, P2)
             c = dict(case, order=order, mode=mname)
-            s = check_one(SITE[mname], MODES[mname], t1, t2, X1, X2, p, dim, c, ctx, tie)
+            kept = []
+            s = check_one(SITE[mname], MODES[mname], t1, t2, X1, X2, p, dim, c, ctx, tie, kept)
             ctx.count("matchings_executed")
             scores[(order, mname)] = s
+            if kept and mname in ("dtw", "fdtw"):
+                # the matching that was just returned (track 1 + the features of the match) is matched again with a fresh
+                # copy of track 2: a track that already carries 'pair' / 'diff' / ... is a track like any other
+                c2 = dict(c, chained=True)
+                check_one(SITE[mname] + "/first-track-is-an-earlier-matching", MODES[mname], kept[0],
+                          make_track(variant, P2), X1, X2, p, dim, c2, ctx, tie)
+                ctx.count("matchings_executed")
+                ctx.oblige("rematch_of_a_matching")
         if p == INF:
             ctx.oblige("frechet")
             t1, t2 = make_track(variant, P1), make_track(variant, P2)
